@@ -251,6 +251,9 @@ class C13(Check):
                 if 'Residuals are not finite' in str(e):
                     out.cls('zernike_fit_on_failed_rays')      # rays fail in this lens: the fit rejects NaN data
                     continue
+                if 'is not finite' in str(e) and c['call'] == 'geometric_mtf':
+                    out.cls('histogram_of_failed_rays')        # all rays fail: numpy's histogram rejects a NaN range
+                    continue
                 raise
             kinds.add(c['call'])
             out.cls('call_' + c['call'])
